@@ -331,6 +331,14 @@ fn case_bash(bytes: &[u8]) -> Outcome {
         }
         how = "same shape, different split over || levels";
     }
+    // a nonterminal specialised for bash (and the built-in <PATH>) sitting under ||
+    if sx.chance(1, 2) && !g.defs().any(|(n, _, _)| n == "SPX") && !g.exprs().any(|e| e.has(&|x| matches!(x, E::Lit { text, .. } if text == "spv"))) {
+        g.stmts.push(Stmt::Def { name: "SPX".into(), shell: Some("bash".into()), e: E::Cmd("echo spx_out".into()) });
+        g.stmts.push(Stmt::Call { name: "cmd".into(), e: E::Seq(vec![lit("spv"), E::Fb(vec![lit("alpha"), nt("SPX"), nt("PATH")]), E::Opt(Box::new(lit("tl")))]) });
+        for (w, cur) in [(vec!["spv"], "s"), (vec!["spv"], ""), (vec!["spv", "spx_out"], ""), (vec!["spv", "zzfoo"], "")] {
+            extra.push(GenQuery { words: w.iter().map(|x| x.to_string()).collect(), cur: cur.to_string(), kind: "specialised_under_fallback" });
+        }
+    }
     judge_bash_with(&g, &v, qb, how, extra)
 }
 
